@@ -19,6 +19,11 @@ def _file_decision(ex, st, k):
     before = st.env['before_timestamp']
     goal = z3.BoolVal(not stt and len(lst) <= 1 and len(handler) <= 1)
     fname = st.env['filename']
+    # the path examined is os.path.join(<directory being walked>, <name listed in it>), in that order
+    sp = st.fork()
+    sp.spec = True
+    sp.env = {'d': st.env['dirpath'], 'n': st.env['filenames'].elem(k)}
+    goal = z3.And(goal, eq(fname, ex.ev1(sp, ex.reg.parse_spec('pjoin(d, n)'))))
     if lst and not lst[0].raised:
         mt = ex.opaque_field_at(st, handler[0] if handler else lst[0], lst[0].result, 'st_mtime').t
         old = mt < before.t
@@ -36,6 +41,35 @@ def _file_decision(ex, st, k):
            'a file is handed to the remove handler iff remove_all or lstat(path).st_mtime < before_timestamp (strict, own mtime)')
 
 
+def _cleanup_dir_protocol(ex, st, post, result):
+    """the whole-directory short cuts: rmtree only for remove_all without a handler; otherwise the directory itself is walked"""
+    import z3
+    from pyvc.values import eq
+    d = post.env['directory']
+    ra = ex.truth(st, post.env['remove_all'])
+    fh = post.env['file_handler']
+    no_handler = fh.isnone if hasattr(fh, 'isnone') else z3.BoolVal(False)
+    ex_ = [e for i, e in T.evs(st, 'exists')]
+    rt = [e for i, e in T.evs(st, 'rmtree')]
+    wk = [e for i, e in T.evs(st, 'walk')]
+    rde = [e for i, e in T.evs(st, 'remove_dir_if_empty')]
+    goal = z3.BoolVal(len(ex_) == 1 and len(rt) <= 1 and len(wk) <= 1)
+    if ex_:
+        goal = z3.And(goal, eq(ex_[0].args[0], d))
+    for e in rt:
+        goal = z3.And(goal, ra, no_handler, eq(e.args[0], d), z3.BoolVal(not wk))
+    for e in wk:
+        goal = z3.And(goal, eq(e.args[0], d), z3.BoolVal(bool(ex_)), ex.truth(st, ex_[0].result) if ex_ else z3.BoolVal(False))
+    if not wk and not rt:
+        # nothing removed file-wise: the directory does not exist, or it was empty and has just been removed
+        gone = z3.Not(ex.truth(st, ex_[0].result)) if ex_ else z3.BoolVal(False)
+        emptied = z3.Or([z3.And(ex.truth(st, e.result), eq(e.args[0], d)) for e in rde]) if rde else z3.BoolVal(False)
+        goal = z3.And(goal, z3.Or(gone, z3.And(emptied, no_handler, ex.truth(st, post.env['remove_empty_dirs']))))
+    yield ('whole_directory_shortcuts', goal,
+           'shutil.rmtree(directory) only for remove_all without a file handler; the files are left unvisited only if the '
+           'directory does not exist or was empty; otherwise os.walk(directory) visits it')
+
+
 contract('mapproxy.util.fs:cleanup_directory', props=['C12'],
          types=dict(directory='str', before_timestamp='real', remove_all='bool', remove_empty_dirs='bool',
                     file_handler='opt[opaque]'),
@@ -50,7 +84,7 @@ contract('mapproxy.util.fs:cleanup_directory', props=['C12'],
          raises={'OSError': True},
          loops={0: dict(inv=[], types={'filename': 'str'}),
                 1: dict(inv=[], types={'filename': 'str'}, body_trace=[_file_decision])},
-         trace=[])
+         trace=[_cleanup_dir_protocol])
 
 
 # ---- strategy dispatch: every level gets exactly the task's timestamp / remove_all ------------------------------------------
@@ -65,6 +99,16 @@ def _simple_level(ex, st, k):
     goal = z3.BoolVal(len(loc) == 1 and len(cd) <= 1)
     if loc:
         goal = z3.And(goal, eq(loc[0].args[0], st.env['level']))
+    if not cd:
+        # a selected level is left alone only when the saved progress says it was already cleaned in an interrupted run
+        ap = [e for e in evs_ if e.name == 'already_processed']
+        goal = z3.And(goal, ex.truth(st, ap[0].result) if ap else z3.BoolVal(False))
+    # in a dry run files are only listed: a handler that does not remove is installed
+    dry = ex.truth(st, st.env['dry_run'])
+    for c in cd:
+        fh = c.kwargs.get('file_handler')
+        is_none = fh.isnone if hasattr(fh, 'isnone') else z3.BoolVal(fh is None or type(fh).__name__ == 'VNone')
+        goal = z3.And(goal, dry == z3.Not(is_none))
     for c in cd:
         goal = z3.And(goal, z3.BoolVal(c.args[0] is loc[0].result),
                       eq(c.args[1], ex.opaque_field_at(st, c, task, 'remove_timestamp')),
@@ -121,6 +165,13 @@ def _strategy_choice(ex, st, k):
     goal = z3.BoolVal(len(whole) + len(walk) <= 1)
     for e in whole + walk:
         goal = z3.And(goal, z3.BoolVal(e.args[0] is task))
+    if not whole and not walk:
+        # a task is skipped only when its coverage is literally False (an empty coverage: nothing to clean)
+        from pyvc.values import ObjSort, opaque_is_true
+        goal = z3.And(goal, z3.Not(opaque_is_true(cov.t)), z3.Function('opaque_is_false', ObjSort, z3.BoolSort())(cov.t))
+    else:
+        tm = [e for e in evs_ if e.name == 'cleanup']
+        goal = z3.And(goal, z3.BoolVal(len(tm) == 1))      # and the tile manager is cleaned up afterwards
     if whole:
         # level-wise strategies remove by level directory / SQL per level: they do not look at the coverage
         goal = z3.And(goal, complete)
